@@ -1230,6 +1230,16 @@ pub enum ArchiveReadError {
         component: String,
     },
 
+    /// An entry in the archive was neither a regular file nor a directory.
+    #[error("path in archive `{path}` has unsupported entry type `{entry_type}`")]
+    UnsupportedEntryType {
+        /// The path of the entry.
+        path: Utf8PathBuf,
+
+        /// A description of the entry type.
+        entry_type: String,
+    },
+
     /// An error occurred while reading a checksum.
     #[error("corrupted archive: checksum read error for path `{path}`")]
     ChecksumRead {
